@@ -353,6 +353,8 @@ def gen(rng, tier):
         shapes = {1: [[], [1]], 2: [[2], [2, 1], [1, 2]], 4: [[4], [2, 2], [4, 1, 1]], 6: [[6], [2, 3], [3, 2, 1]],
                   8: [[8], [2, 2, 2], [4, 2]], 12: [[12], [3, 4], [2, 3, 2]]}
         wd = dim + rng.choice([-1, 1]) if dim > 1 else 2
+        if rng.random() < 0.2:
+            wd = 0          # no interval at all: (), not a way of clearing the box
         wrong = [[0.0, 1.0 + i] for i in range(wd)]
         case = {"ab": ab, "box": box, "boxkind": kind, "fill": fill, "withbb": withbb, "pts": pts, "shape": rng.choice(shapes[npts]),
                 "wrong_box": wrong, "has_edge": has_edge, "how": rng.choice(["setter", "setter", "model", "copy"])}
